@@ -11,7 +11,8 @@
      draw_pos     : each entry is > 0 (true of numpy's generator except with probability
                     2^-53 per draw; only zero_volume_never uses it) *)
 From Coq Require Import Reals ZArith List Permutation.
-From PV Require Import Num NumR Model_stats Proofs_stats Proofs_stats_batch Inst_stats Inst_stats_all.
+From PV Require Import Num NumR Model_stats Proofs_stats Proofs_stats_batch Inst_stats Inst_stats_all
+                       Model_stats_session Proofs_stats_session.
 From PV.gen Require Import Gen_stats.
 Import ListNotations.
 Open Scope R_scope.
@@ -329,3 +330,82 @@ Example C15_generated_nonvacuous :
   @k_resample_N1_M2_n2 NumR (A ex_o) (A f) (A u) (perm_code (nth 0 pis []))
     = Ok (A (map IZR [1;2;3;4;5;6;7;8;9; 11;12;13;14;15;16;17;18;19]%Z), A [3/4; 1/4]).
 Proof. exact generated_nonvacuous. Qed.
+
+(* ================================================================================================ *)
+(* CALL HISTORIES (Model_stats_session.v): live orientation / volume objects that the caller modifies *)
+(* in place between calls (refill, set one entry, rescale, reorder grains); a call names two objects,  *)
+(* n_samples and a seed.  `run false` is the source as it is, `run true` a variant that remembers the  *)
+(* last seeded result per (object identities, shape, n_samples, seed).  ORACLES per call k: argsort k, *)
+(* draw k (the generator created by call k).                                                          *)
+(* ================================================================================================ *)
+
+(* in ANY history every call of the source is the one-call function Model_stats.resample of what its
+   two argument objects contain at the time of the call, of n_samples and of that call's generator --
+   whatever the memo slot holds, whatever was called before *)
+Theorem C15_session_calls_are_pure :
+  forall O argsort draw (h : list (@sop NumR O)) st k m,
+  @run NumR O argsort draw false (st, k, m) h = map (@out_of_ctx NumR O argsort draw) (@contexts NumR O st k h).
+Proof. intros O argsort draw. exact (session_calls_are_pure argsort draw). Qed.
+
+(* pairing over histories: whatever any call of any history returns is a grain of the same snapshot of
+   its arguments AS THEY ARE at the time of that call *)
+Theorem C15_session_membership :
+  forall O argsort draw (h : list (@sop NumR O)) st k m,
+  Forall2 (fun (c : @call_ctx NumR O) out =>
+             forall oo ff, out = Ok (oo, ff) ->
+             forall i s orow frow o x,
+               nth_error oo i = Some orow -> nth_error ff i = Some frow ->
+               nth_error orow s = Some o -> nth_error frow s = Some x ->
+               exists osnap fsnap j,
+                 nth_error (snd (snd (fst (fst (fst c))))) i = Some osnap /\
+                 nth_error (snd (snd (fst (fst c)))) i = Some fsnap /\
+                 nth_error osnap j = Some o /\ nth_error fsnap j = Some x)
+          (@contexts NumR O st k h) (@run NumR O argsort draw false (st, k, m) h).
+Proof. intros O argsort draw. exact (session_membership argsort draw). Qed.
+
+(* zero-volume grains over histories: volumes that are non-negative and sum to 1 at the time of a call
+   and variates in (0,1) give positive returned volumes in that call -- whatever the objects held before *)
+Theorem C15_session_zero_volume_never :
+  forall O argsort draw (h : list (@sop NumR O)) st k m,
+  (forall kk i f, is_perm (length f) (argsort kk i f)) ->
+  (forall kk i n, length (draw kk i n) = n /\ Forall (fun u => 0 < u < 1) (draw kk i n)) ->
+  Forall2 (fun (c : @call_ctx NumR O) out =>
+             forall oo ff, out = Ok (oo, ff) ->
+             Forall (fun f => Forall (fun x => 0 <= x) f /\ lsum f = 1) (snd (snd (fst (fst c)))) ->
+             Forall (fun row => Forall (fun x => 0 < x) row) ff)
+          (@contexts NumR O st k h) (@run NumR O argsort draw false (st, k, m) h).
+Proof. intros O argsort draw. exact (session_zero_volume_never argsort draw). Qed.
+
+(* two calls -- anywhere in their histories, on whichever objects -- whose arguments have equal shapes and
+   contents, equal n_samples, the same sort and the same generator stream (same seed) return the same *)
+Theorem C15_session_same_call :
+  forall O argsort draw (c c' : @call_ctx NumR O),
+  snd (fst (fst (fst c))) = snd (fst (fst (fst c'))) ->
+  snd (fst (fst c)) = snd (fst (fst c')) ->
+  snd (fst c) = snd (fst c') ->
+  (forall i f, argsort (fst (fst (fst (fst c)))) i f = argsort (fst (fst (fst (fst c')))) i f) ->
+  (forall i n, draw (fst (fst (fst (fst c)))) i n = draw (fst (fst (fst (fst c')))) i n) ->
+  @out_of_ctx NumR O argsort draw c = @out_of_ctx NumR O argsort draw c'.
+Proof. intros O argsort draw. exact (session_same_call argsort draw). Qed.
+
+(* the memoising variant is refuted: grains (7, 1), (8, 0); resample (seed 5, one sample, variate 1/2);
+   overwrite the volumes in place with (0, 1); resample the same objects with the same seed.  The source
+   returns (8, 1); the variant hands back (7, 1), which is no grain of the snapshot it was called on *)
+Theorem C15_session_memo_refuted :
+  @run NumR nat ex_argsort ex_draw true (ex_store, 0%nat, None) ex_history
+    = [Ok ([[7%nat]], [[1]]); Ok ([[7%nat]], [[1]])] /\
+  @run NumR nat ex_argsort ex_draw false (ex_store, 0%nat, None) ex_history
+    = [Ok ([[7%nat]], [[1]]); Ok ([[8%nat]], [[1]])] /\
+  @pure_run NumR nat ex_argsort ex_draw ex_store 0 ex_history
+    = [Ok ([[7%nat]], [[1]]); Ok ([[8%nat]], [[1]])] /\
+  snd (@fget NumR nat (store_after ex_store ex_history) 0) = [[0; 1]] /\
+  ~ (exists j, nth_error [7; 8]%nat j = Some 7%nat /\ nth_error [0; 1] j = Some 1).
+Proof. exact memo_refuted. Qed.
+
+Example C15_session_nonvacuous :
+  (forall kk i f, (length f = 2)%nat -> is_perm (length f) (ex_argsort kk i f)) /\
+  (forall kk i n, length (ex_draw kk i n) = n /\ Forall (fun u => 0 < u < 1) (ex_draw kk i n)) /\
+  @contexts NumR nat ex_store 0 ex_history
+    = [(0%nat, ([1; 2; 3; 3]%nat, [[7; 8]%nat]), ([1; 2]%nat, [[1; 0]]), Some 1%Z, Some 5%Z);
+       (1%nat, ([1; 2; 3; 3]%nat, [[7; 8]%nat]), ([1; 2]%nat, [[0; 1]]), Some 1%Z, Some 5%Z)].
+Proof. exact session_nonvacuous. Qed.
